@@ -5,6 +5,8 @@ import (
 	"encoding/json"
 	"fmt"
 	"os"
+	"os/exec"
+	"time"
 
 	"verif/mc/internal/core"
 )
@@ -24,18 +26,39 @@ func Replay(path string) int {
 	}
 	var f struct {
 		Property string          `json:"property"`
+		Sig      string          `json:"sig"`
 		Case     json.RawMessage `json:"case"`
 	}
 	if err := json.Unmarshal(b, &f); err != nil {
 		fmt.Fprintln(os.Stderr, err)
 		return 2
 	}
+	if f.Sig == "check-process-died" {
+		// there is no single input to replay: the whole check is the reproduction
+		var c struct{ Tier string `json:"tier"` }
+		_ = json.Unmarshal(f.Case, &c)
+		exe, _ := os.Executable()
+		cmd := exec.Command(exe, f.Property, c.Tier)
+		cmd.Stdout, cmd.Stderr = os.Stdout, os.Stderr
+		if err := cmd.Run(); err != nil {
+			return 1
+		}
+		return 0
+	}
 	rp, ok := Replayers[f.Property]
 	if !ok {
 		fmt.Fprintln(os.Stderr, "no replayer for", f.Property)
 		return 2
 	}
-	if msg := rp(f.Case); msg != "" {
+	done := make(chan string, 1)
+	go func() { done <- rp(f.Case) }()
+	var msg string
+	select {
+	case msg = <-done:
+	case <-time.After(core.HangLimit()):
+		msg = fmt.Sprintf("the replayed call does not return (no answer within %s)", core.HangLimit())
+	}
+	if msg != "" {
 		fmt.Printf("VIOLATION property=%s replay=%s  # %s\n", f.Property, path, msg)
 		return 1
 	}
